@@ -43,7 +43,7 @@ func LoadProgram(dir string, tags string, patterns []string) (*Program, error) {
 	if len(errs) > 0 {
 		return nil, fmt.Errorf("package load errors:\n%s", strings.Join(errs, "\n"))
 	}
-	prog, spkgs := ssautil.AllPackages(pkgs, ssa.BuilderMode(0))
+	prog, spkgs := ssautil.AllPackages(pkgs, ssa.GlobalDebug)
 	prog.Build()
 	p := &Program{Prog: prog, Pkgs: pkgs, SSA: spkgs, Funcs: map[string]*ssa.Function{}, ByPkg: map[string]*ssa.Package{}, Tags: tags, RepoDir: dir}
 	for _, sp := range prog.AllPackages() {
@@ -208,23 +208,23 @@ func LoadSpecs(specDir, repoDir string) (*SpecDB, error) {
 	}
 	const mod = "github.com/ClickHouse/ch-go"
 	for _, sub := range []string{"proto", "compress", ".", "chpool"} {
-		f := filepath.Join(repoDir, sub, "contracts_verif.go")
-		if _, err := os.Stat(f); err != nil {
-			continue
-		}
-		pkg := mod
-		if sub != "." {
-			pkg = mod + "/" + sub
-		}
-		sf, err := ParseSpecFile(f, pkg)
-		if err != nil {
-			return nil, err
-		}
-		if sf.Imports["io"] == "" {
-			sf.Imports["io"] = "io"
-		}
-		if err := db.Add(sf); err != nil {
-			return nil, err
+		cfs, _ := filepath.Glob(filepath.Join(repoDir, sub, "contracts*_verif.go"))
+		sort.Strings(cfs)
+		for _, f := range cfs {
+			pkg := mod
+			if sub != "." {
+				pkg = mod + "/" + sub
+			}
+			sf, err := ParseSpecFile(f, pkg)
+			if err != nil {
+				return nil, err
+			}
+			if sf.Imports["io"] == "" {
+				sf.Imports["io"] = "io"
+			}
+			if err := db.Add(sf); err != nil {
+				return nil, err
+			}
 		}
 	}
 	return db, nil
